@@ -520,6 +520,21 @@ static std::string simulateOnce(const SimCase& c, const Probes& P0, int seed, st
   return "";
 }
 
+// code path of the structure(s): the type when there is one structure (with the regime of its third parameter:
+// turning bands and spectral methods switch algorithm with it), "mixed" otherwise
+static std::string typeTag(const SimCase& c)
+{
+  if (c.nstruct() != 1) return "mixed";
+  for (auto& s : c.st)
+    if (s.type != T_NUGGET)
+    {
+      std::string t = tname(s.type);
+      if (s.type == T_MATERN) t += (s.param < 0.5 ? "-lt.5" : (s.param == 0.5 ? "-eq.5" : "-gt.5"));
+      if (s.type == T_STABLE) t += (s.param < 1. ? "-lt1" : (s.param == 1. ? "-eq1" : (s.param == 2. ? "-eq2" : "-gt1")));
+      return t;
+    }
+  return "mixed";
+}
 static std::string simTag(const SimCase& c)
 {
   switch (c.sim)
@@ -601,7 +616,7 @@ static void runSim(const SimCase& c, Ctx& ctx)
     return (double)(s / R);
   };
   const double b = allowance(c);
-  const char* isoTag = c.anisotropic() ? "aniso" : "iso";
+  const std::string isoTag = std::string(c.anisotropic() ? "aniso" : "iso") + ":" + typeTag(c);
   // variant of the key for the spectral simulator: its variance does not depend on the sill (see report)
   std::string varVariant;
   if (c.sim == SIM_SPECTRAL) varVariant = (c.st[0].sill[0] == 1.) ? ":unit-sill" : ":nonunit-sill";
@@ -615,7 +630,7 @@ static void runSim(const SimCase& c, Ctx& ctx)
     double sd = std::sqrt(cii / R), dev = std::fabs((double)(m1[(size_t)i] / R));
     maxz = std::max(maxz, dev / sd);
     if (dev > 6. * sd)
-    { ctx.fail("mean:" + tag, fmt("ensemble mean at probe %d var %d deviates from the model mean by %.4g = %.1f sigma (R=%d)", i / nvar, i % nvar, dev, dev / sd, R)); return; }
+    { ctx.fail("mean:" + tag + ":" + isoTag, fmt("ensemble mean at probe %d var %d deviates from the model mean by %.4g = %.1f sigma (R=%d)", i / nvar, i % nvar, dev, dev / sd, R)); return; }
   }
   // statistic of one (pair, variables)
   struct Stat { double est, exp, sd, scale; };
@@ -673,7 +688,7 @@ static void runSim(const SimCase& c, Ctx& ctx)
           Stat s = stat(pr[0], iv, pr[0], jv);
           if (judge(s))
           {
-            ctx.fail(x + "var:" + tag + varVariant,
+            ctx.fail(x + "var:" + tag + varVariant + ":" + isoTag,
                      fmt("ensemble %s at probe %d (var %d,%d) = %.5g, model %.5g: |diff| = %.1f sigma_MC, allowance %.3g (R=%d)",
                          phase == 0 ? "variance" : "cross-covariance", pr[0], iv, jv, s.est, s.exp, std::fabs(s.est - s.exp) / s.sd, b * s.scale, R));
             return;
@@ -688,7 +703,7 @@ static void runSim(const SimCase& c, Ctx& ctx)
         if (!wanted(iv, jv) || !pooled(0, iv, jv, s)) continue;
         if (judge(s))
         {
-          ctx.fail("pooled-" + x + "var:" + tag + varVariant,
+          ctx.fail("pooled-" + x + "var:" + tag + varVariant + ":" + isoTag,
                    fmt("%s averaged over the %d probes (var %d,%d) = %.5g, model %.5g: |diff| = %.1f sigma_MC, allowance %.3g (R=%d)",
                        iv == jv ? "variance" : "cross-covariance", np, iv, jv, s.est, s.exp, std::fabs(s.est - s.exp) / s.sd, b * s.scale, R));
           return;
@@ -705,7 +720,7 @@ static void runSim(const SimCase& c, Ctx& ctx)
           Stat s = stat(pr[0], iv, pr[1], jv);
           if (judge(s))
           {
-            ctx.fail(x + "cov:" + tag + ":" + isoTag + varVariant,
+            ctx.fail(x + "cov:" + tag + varVariant + ":" + isoTag,
                      fmt("ensemble covariance between probes %d and %d (lag class %d, var %d,%d) = %.5g, model %.5g: |diff| = %.1f sigma_MC, allowance %.3g (R=%d)",
                          pr[0], pr[1], pr[2], iv, jv, s.est, s.exp, std::fabs(s.est - s.exp) / s.sd, b * s.scale, R));
             return;
@@ -721,7 +736,7 @@ static void runSim(const SimCase& c, Ctx& ctx)
           if (!wanted(iv, jv) || !pooled(cls, iv, jv, s)) continue;
           if (judge(s))
           {
-            ctx.fail("pooled-" + x + "cov:" + tag + ":" + isoTag + varVariant,
+            ctx.fail("pooled-" + x + "cov:" + tag + varVariant + ":" + isoTag,
                      fmt("covariance of lag class %d averaged over the anchors (var %d,%d) = %.5g, model %.5g: |diff| = %.1f sigma_MC, allowance %.3g (R=%d)",
                          cls, iv, jv, s.est, s.exp, std::fabs(s.est - s.exp) / s.sd, b * s.scale, R));
             return;
@@ -978,6 +993,7 @@ struct LawRef
   LD mean = 0;
   std::vector<LD> mu;                         // central moments
   std::function<double(double)> cdf, cdfm;    // F(x), F(x-)
+  std::function<double(double)> sf;           // 1 - F(x), accurate in the upper tail (continuous laws only)
   std::function<bool(double)> inside;
 };
 static const LD kNaN = std::numeric_limits<LD>::quiet_NaN();
@@ -1027,6 +1043,7 @@ static LawRef lawGamma(double alpha, double scale)
   for (int n = 1; n <= 16; n++) { k[(size_t)n] = (LD)alpha * f * sc; f *= n; sc *= scale; }
   L.mu = centralFromCumulants(k);
   L.cdf = L.cdfm = [=](double x) { return x <= 0 ? 0. : boost::math::gamma_p(alpha, x / scale); };
+  L.sf = [=](double x) { return x <= 0 ? 1. : boost::math::gamma_q(alpha, x / scale); };
   L.inside = [](double x) { return x >= 0 && x < 1e29; };
   return L;
 }
@@ -1042,6 +1059,7 @@ static LawRef lawRef(const LawCase& c, int convention /* gamma-beta: 0 scale, 1 
       L.mean = a + 0.5 * w;
       for (int k = 0; k <= 16; k++) L.mu[(size_t)k] = (k % 2) ? 0.L : powl(0.5L * w, k) / (k + 1);
       L.cdf = L.cdfm = [=](double x) { return std::min(1., std::max(0., (x - a) / w)); };
+      L.sf = [=](double x) { return std::min(1., std::max(0., (a + w - x) / w)); };
       L.inside = [=](double x) { return x >= a && x <= a + w; };
       break;
     }
@@ -1053,6 +1071,7 @@ static LawRef lawRef(const LawCase& c, int convention /* gamma-beta: 0 scale, 1 
       L.mu[0] = 1;
       for (int k = 2; k <= 16; k += 2) { df *= (k - 1); L.mu[(size_t)k] = df * powl(sd, k); }
       L.cdf = L.cdfm = [=](double x) { return 0.5 * std::erfc(-(x - m) / (sd * std::sqrt(2.))); };
+      L.sf = [=](double x) { return 0.5 * std::erfc((x - m) / (sd * std::sqrt(2.))); };
       L.inside = [](double x) { return std::fabs(x) < 1e29; };
       break;
     }
@@ -1067,6 +1086,7 @@ static LawRef lawRef(const LawCase& c, int convention /* gamma-beta: 0 scale, 1 
       L.mean = r[1];
       L.mu = centralFromRaw(r);
       L.cdf = L.cdfm = [=](double x) { return x <= 0 ? 0. : (x >= 1 ? 1. : boost::math::ibeta(a, b, x)); };
+      L.sf = [=](double x) { return x <= 0 ? 1. : (x >= 1 ? 0. : boost::math::ibetac(a, b, x)); };
       L.inside = [](double x) { return x >= 0 && x <= 1; };
       break;
     }
@@ -1078,6 +1098,7 @@ static LawRef lawRef(const LawCase& c, int convention /* gamma-beta: 0 scale, 1 
       L.mean = r[1];
       L.mu = centralFromRaw(r);
       L.cdf = L.cdfm = [=](double x) { return x <= 0 ? 0. : boost::math::ibeta(a, b, x / (1. + x)); };
+      L.sf = [=](double x) { return x <= 0 ? 1. : boost::math::ibeta(b, a, 1. / (1. + x)); };
       L.inside = [](double x) { return x >= 0 && x < 1e29; };
       break;
     }
@@ -1169,6 +1190,7 @@ static std::string lawBattery(const LawCase& c, const LawRef& L, const std::vect
     for (double x : xs) s += powl((LD)x - L.mean, k);
     double est = (double)(s / N), dev = std::fabs(est - expect);
     maxz = std::max(maxz, dev / sd);
+    if (getenv("VERIF_C14_DIAG")) diag(fmt("D moment%d est=%.8g law=%.8g z=%+.2f thr=%.2f", k, est, expect, (est - expect) / sd, thr / sd));
     if (dev > thr)
       return fmt("moment%d|", k) + fmt("central moment of order %d = %.8g, law %.8g: |diff| = %.1f sigma (threshold %.1f sigma, N=%d)", k, est, expect, dev / sd, thr / sd, N);
   }
@@ -1183,8 +1205,19 @@ static std::string lawBattery(const LawCase& c, const LawRef& L, const std::vect
     D = std::max(D, std::fabs((double)i / N - L.cdfm(v[(size_t)i])));
     i = j;
   }
+  // range actually reached (continuous laws): F(min) and 1 - F(max) are Beta(1, N) variables, so
+  // P(F(min) > t) = (1 - t)^N <= exp(-N t) = 2.5e-7 for t = ln(4e6)/N: a generator that cannot reach one tail fails
+  if (L.sf)
+  {
+    double t = std::log(4. / 1e-6) / N;
+    double lo = L.cdf(v.front()), hi = L.sf(v.back());
+    if (getenv("VERIF_C14_DIAG")) diag(fmt("D tails F(min)=%.3g 1-F(max)=%.3g t=%.3g", lo, hi, t));
+    if (lo > t) return "tail|" + fmt("the smallest of %d draws is %.8g: F(min) = %.3g > %.3g, the lower tail of the law is not reached", N, v.front(), lo, t);
+    if (hi > t) return "tail|" + fmt("the largest of %d draws is %.8g: 1 - F(max) = %.3g > %.3g, the upper tail of the law is not reached", N, v.back(), hi, t);
+  }
   double eps = std::sqrt(std::log(2. / 1e-6) / (2. * N));
   maxz = std::max(maxz, 6. * D / eps); // on the same scale: 6 = at the threshold
+  if (getenv("VERIF_C14_DIAG")) diag(fmt("D ks D=%.5f eps=%.5f", D, eps));
   if (D > eps) return "ks|" + fmt("Kolmogorov-Smirnov distance %.5f > %.5f (DKW bound at 1e-6, N=%d)", D, eps, N);
   return "";
 }
